@@ -176,7 +176,7 @@ def build_driver(prop):
         return binp
     ev = os.path.join(GEN, "Extract_%s.v" % prop)
     open(ev, "w").write('From Coq Require Import ExtrOcamlBasic.\nFrom FV Require Import %s.Registry.\n'
-                        'Extraction Language OCaml.\nExtraction "%s.ml" entry.\n' % (prop, prop))
+                        'Extraction Language OCaml.\nExtraction "%s.ml" fv_entry.\n' % (prop, prop))
     rc, out, _ = sh(["coqc", "-Q", os.path.join(COQ, "theories"), "FV", ev], cwd=GEN, timeout=600)
     if rc != 0: raise RuntimeError("extraction failed:\n" + out[-3000:])
     main = os.path.join(GEN, "%s_main.ml" % prop)
